@@ -11,7 +11,14 @@
 // under a label, not reported); NewDecimalFromFloat is compared with the exact product within the rounding of one floating-point
 // multiplication plus one unit; Duration.Duration()/NewDuration/NewDatetime/Time (Go conversion helpers) only "exact or error".
 //
-// SENSITIVITY-RESULTS
+// Sensitivity (quick tier, scratch copy of /repo + harness, one mutant at a time; all caught, replay of a mutant's case fails under the
+// mutant and passes on the real tree):
+//   - ParseDecimal applies the sign to the integer part only          -> decimal/wrong-value, decimal/reparse, decimal/accepts-invalid, value/cedar-text
+//   - ParseDatetime adds the offset instead of subtracting it         -> datetime/wrong-value, datetime/accepts-invalid, datetime/rejects-valid
+//   - yearMax 9999 -> 9998                                            -> datetime/rejects-valid, datetime/reparse
+//   - duration unit table m <-> ms                                    -> duration/wrong-value, duration/reparse, duration/accepts-invalid
+//   - Decimal.String trims four zeros                                 -> decimal/print, decimal/fromint, decimal/wrong-value
+//   - IPAddr.String drops a /0 prefix                                 -> ip/reparse, value/cedar-text
 package c12
 
 import (
@@ -99,6 +106,31 @@ func hasFFFD(v ir.Value) bool {
 	})
 }
 
+// rejectedOnlyForRawQuote: the literal body is invalid, and becomes valid when its unescaped double quotes are replaced by a letter.
+func rejectedOnlyForRawQuote(body string) bool {
+	if _, ok, _ := ref.UnquoteCedar(body); ok {
+		return false
+	}
+	var b strings.Builder
+	esc := false
+	for _, r := range body {
+		switch {
+		case esc:
+			esc = false
+			b.WriteRune(r)
+		case r == '\\':
+			esc = true
+			b.WriteRune(r)
+		case r == '"':
+			b.WriteRune('q')
+		default:
+			b.WriteRune(r)
+		}
+	}
+	_, ok, _ := ref.UnquoteCedar(b.String())
+	return ok
+}
+
 func floatOf(c *Case) (f64 float64, f32 float32) {
 	if c.F32 {
 		f32 = math.Float32frombits(uint32(c.FBits))
@@ -140,6 +172,13 @@ func knownClass(c *Case) string {
 	case "lit":
 		if ev.KnownOpen("C12", "string-ufffd") && strings.ContainsRune(c.Text, 0xfffd) {
 			return "string-ufffd"
+		}
+		if c.T == "uid" && ev.KnownOpen("C12", "uid-unmarshal-lenient") && rejectedOnlyForRawQuote(c.Text) {
+			return "uid-unmarshal-lenient"
+		}
+	case "gotime":
+		if ev.KnownOpen("C12", "duration-go-range") && (c.I > math.MaxInt64/1000000 || c.I < math.MinInt64/1000000) && c.I <= math.MaxInt64/1000 && c.I >= math.MinInt64/1000 {
+			return "duration-go-range"
 		}
 	case "newdec":
 		if ev.KnownOpen("C12", "newdecimal-wrap") && c.E >= 1 && c.E <= 14 {
@@ -350,6 +389,11 @@ func checkUIDForms(v ir.Value) (string, string) {
 // checkLit: a string / entity-uid literal in the harness's own spelling (escape variants, raw characters) is accepted by the
 // policy parser (and UnmarshalCedar) with the value the own recogniser reads.
 func checkLit(t, text string) (string, string) {
+	if strings.ContainsRune(text, 0) {
+		// carve-out: a raw NUL character in policy source (cedar-go's tokenizer rejects it; the oracle is not sure of the specification)
+		ev.R.Label("lit:raw-nul-skipped", 1)
+		return "", ""
+	}
 	switch t {
 	case "string":
 		want, ok, grey := ref.UnquoteCedar(text)
